@@ -34,6 +34,7 @@ CONSTANTS Funcs,          \* function names
           MaxFrames,      \* bound on the number of frames ever created
           Rate,           \* sampling rate (0 = unset)
           AllowThrow,     \* extended alphabet: throw() into a suspended generator
+          AllowDrop,      \* extended alphabet: a suspended generator is abandoned (close() / garbage collection)
           Dev_ReturnConst,   \* handle_return does not recognise RETURN_CONST: return type stays absent
           Dev_AwaitIsYield,  \* a coroutine suspending on an await is recorded as a yield of what the awaitable yielded
           Dev_ThrowIsYield,  \* an exception thrown into a suspended generator is recorded as `yield None`; never logged; residue
@@ -193,7 +194,22 @@ Throw(id, draw) ==
   /\ hist' = Append(hist, [op |-> "Throw", f |-> fr[id].f, id |-> id, v |-> NoneTok, catch |-> TRUE, draw |-> draw])
   /\ UNCHANGED stack
 
+\* extended alphabet: the program drops its last reference to a suspended generator; close() throws
+\* GeneratorExit into it (same event delivery as Throw).  The statement of C02 does not say whether such a
+\* call "finished": it carries NO verdict (neither truth nor the invariants mention it) - but every other
+\* call must still be traced faithfully afterwards.
+Drop(id, draw) ==
+  /\ AllowDrop /\ CanAct /\ id \in 1..Len(fr) /\ fr[id].st = "susp" /\ Kind[fr[id].f] = "gen"
+  /\ fr' = [fr EXCEPT ![id].st = "dropped"]
+  /\ LET s1 == OnCall(Cur, id, fr[id].f, fr[id].cur, FALSE, draw)
+         s2 == IF Dev_ThrowIsYield THEN OnReturn(s1, id, fr[id].f, "YIELD_VALUE", NoneTok)
+               ELSE OnReturn(s1, id, fr[id].f, "OTHER", NoneTok)
+     IN Commit(s2)
+  /\ hist' = Append(hist, [op |-> "Drop", f |-> fr[id].f, id |-> id, v |-> NoneTok, catch |-> TRUE, draw |-> draw])
+  /\ UNCHANGED <<stack, truth>>
+
 Next ==
+  \/ \E id \in 1..Len(fr), d \in Draws : Drop(id, d)
   \/ \E f \in Funcs, v \in Vals, c \in BOOLEAN, d \in Draws : Call(f, v, c, d)
   \/ \E id \in 1..Len(fr), c \in BOOLEAN, d \in Draws : Resume(id, c, d)
   \/ \E v \in Vals : Yield(v)
@@ -217,10 +233,12 @@ IsSubSeq(s, t) == IF Len(s) = 0 THEN TRUE
                   ELSE IF s[1] = t[1] THEN IsSubSeq(Tail(s), Tail(t))
                   ELSE IsSubSeq(s, Tail(t))
 
+\* abandoned generators carry no verdict: what the tracer logged for them is left out
+Judged(s) == SelectSeq(s, LAMBDA r : fr[r.id].st # "dropped")
 \* C02: exactly once, attributed, in completion order, faithful (when every call is sampled)
-ExactlyOnceInOrder == Rate <= 1 => ProjSeq(logged) = ProjSeq(truth)
+ExactlyOnceInOrder == Rate <= 1 => ProjSeq(Judged(logged)) = ProjSeq(truth)
 \* C18: what is logged is a sub-sequence of the truth, each trace exactly as without sampling
-SampledSubset == IsSubSeq(ProjSeq(logged), ProjSeq(truth))
+SampledSubset == IsSubSeq(ProjSeq(Judged(logged)), ProjSeq(truth))
 \* C02/C18: no per-call state is kept for a finished frame
 NoResidue == \A t \in traces : fr[t.id].st # "done"
 =============================================================================
